@@ -279,15 +279,21 @@ class DiameterAssociation(object):
         stream = b""
         while not self._send_messages.empty() and \
                 len(stream) <= SEND_BUFFER_MAXIMUM_SIZE:
-            msg = self._send_messages.get()
+            #: Look at the head of the queue without taking the message out: 
+            #: putting it back would place it behind messages submitted 
+            #: later. Producers hold the DiameterAssociation lock as well.
+            msg = self._send_messages.queue[0]
             diameter_conn_logger.debug(f"[{msg.header.hop_by_hop.hex()}] "\
                                        f"Preparing message to be sent.")
 
             MESSAGE_LENGTH = len(msg.dump())
 
-            if MESSAGE_LENGTH > SEND_BUFFER_MAXIMUM_SIZE - len(stream):
-                self._send_messages.put(msg)
+            #: It does not fit into this batch, it goes with the next one 
+            #: (a batch always takes at least one message).
+            if stream and MESSAGE_LENGTH > SEND_BUFFER_MAXIMUM_SIZE - len(stream):
                 break
+
+            self._send_messages.get()
 
             if isinstance(msg, DiameterRequest):
                 key = msg.header.hop_by_hop.hex()
